@@ -1405,9 +1405,12 @@ def c10(tier):
         s["ops"] = [o for o in s["ops"]]
         if i % 4 == 1:      # raw-copied entries (their local headers are written once and never patched) and empty compressed entries
             body = s["ops"][1:-1]
-            s["ops"] = list(gen_writer.SRC_PRELUDE) + [{"op": "New"}] + body[:2] + [{"op": "RawCopy", "arch": 0, "idx": g.r.randint(0, 3), "rename": None},
-                        {"op": "StartFile", "name": "empty-deflated", "method": 8}, {"op": "StartFile", "name": "empty-zstd", "method": 93, "large": g.r.random() < 0.5},
-                        {"op": "RawCopy", "arch": 0, "idx": g.r.randint(0, 3), "rename": "renamed-copy"}] + body[2:] + [{"op": "Finish"}]
+            extra = [{"op": "RawCopy", "arch": 0, "idx": g.r.randint(0, 3), "rename": None},
+                     {"op": "StartFile", "name": "empty-deflated", "method": 8}, {"op": "StartFile", "name": "empty-zstd", "method": 93, "large": g.r.random() < 0.5},
+                     {"op": "RawCopy", "arch": 0, "idx": g.r.randint(0, 3), "rename": "renamed-copy"}, {"op": "StartFile", "name": "after-copy", "method": 8},
+                     {"op": "Write", "data": "written after a raw copy"}]
+            # (the block goes in front of or behind the generated body: a write that follows a raw copy directly would be a gap)
+            s["ops"] = list(gen_writer.SRC_PRELUDE) + [{"op": "New"}] + (extra + body if i % 8 == 1 else body + extra) + [{"op": "Finish"}]
         if len([o for o in s["ops"] if o["op"] in ("StartFile", "AddDir", "AddSymlink", "StartFileAligned", "StartFileExtra")]) == 0:
             s["ops"].insert(1, {"op": "StartFile", "name": "only", "method": 8})
         s["dump"] = dump
@@ -1431,7 +1434,7 @@ def c10(tier):
         except Exception:  # noqa
             continue
         for pi, (plan, pcrc) in enumerate(stream_plans(rnd, datas, 3 if tier == "quick" else 12)):
-            scs.append({"sc": "%s-p%d" % (e["sc"], pi), "hex": b.hex(), "plan": plan, "pcrc": pcrc,
+            scs.append({"sc": "%s-p%d" % (e["sc"], pi), "hex": b.hex(), "plan": plan, "pcrc": pcrc, "origin": "writer",
                         "under": rnd.choice(SCHED_UNDER), "buf": rnd.choice([1, 3, 4096, 65536])})
     # archives of the independent builder: ZIP64 local records, unsupported (encrypted / data-descriptor) entries in the middle
     for i in range(20 if tier == "quick" else 300):
@@ -1794,6 +1797,8 @@ def c11(tier):
     for name, b, v, pws in rseeds:
         epw = [pws[0].hex() if e["enc"] is not None else None for e in v["entries"]]
         rscs.append({"sc": "r-" + name, "hex": b.hex(), "via": "seek", "epw": epw})
+        if name != "plain":      # small caller buffers: the last chunk of an encrypted entry and its trailer are separate calls
+            rscs.append({"sc": "r-%s-buf8" % name, "hex": b.hex(), "via": "seek", "epw": epw, "buf": 8})
         if name == "plain":
             rscs.append({"sc": "r-plain-stream", "hex": b.hex(), "via": "stream", "epw": []})
     rscs.append({"sc": "r-zip64", "hex": z64.hex(), "via": "seek", "epw": []})
